@@ -507,6 +507,7 @@ theorem step_snaps (cfg : Cfg) (n : Node) (op : Op) (hop : op ≠ .freset) : Ste
         · exact Or.inl h
       · exact Or.inr (h.trans (same_of_fabs_nets rfl rfl))
     | kvfail k => exact one_of_quiet (quiet_of_eq rfl rfl)
+    | nop => exact one_of_quiet (quiet_refl n)
     | coldreset => simp only [step, isSessOp, ok]; intro kv hk; cases hk
     | fabrecover i => simp only [step, isSessOp, ok]; intro kv hk; cases hk
     | freset => exact absurd rfl hop
